@@ -18,6 +18,9 @@ theorem AllFull.snoc {log : List Obs} (h : AllFull log) : AllFull (log ++ [.full
 theorem seeRed_clean {r : CS} (h : r ≠ .part) : seeRed r = .full := by
   cases r <;> simp_all [seeRed]
 
+theorem seeRedC_clean {r : CS} (k : Kind) (h : r ≠ .part) : seeRedC cleanCfg k r = .full := by
+  cases r <;> simp_all [seeRedC]
+
 theorem cleanCfg_redFirst (k : Kind) : cleanCfg.redFirst k = false := by cases k <;> rfl
 theorem cleanCfg_detFirst (k : Kind) : cleanCfg.detFirst k = false := by cases k <;> rfl
 
@@ -32,7 +35,7 @@ theorem reduced_clean (s : Shared) (h : Clean s) :
     refine ⟨h, rfl, ?_⟩
     intro o ho
     simp only [Option.some.injEq] at ho
-    rw [← ho]; exact seeRed_clean h.1
+    rw [← ho]; exact seeRedC_clean _ h.1
 
 theorem startOp_clean (s : Shared) (log : List Obs) (rest : List COp) (op : COp) (h : Clean s) (hl : AllFull log) :
     Clean (startOp cleanCfg s log rest op).1 ∧ AllFull (startOp cleanCfg s log rest op).2.log := by
@@ -58,7 +61,7 @@ theorem startOp_clean (s : Shared) (log : List Obs) (rest : List COp) (op : COp)
     split
     · exact ⟨h, hl.snoc⟩
     · rename_i hp; exact absurd hp h.2
-    · rw [seeRed_clean h.1]; exact ⟨h, hl.snoc⟩
+    · rw [seeRedC_clean _ h.1]; exact ⟨h, hl.snoc⟩
     · split
       · split
         · rename_i s' heq; rw [heq] at hr; exact ⟨hr.1, hl⟩
@@ -75,11 +78,13 @@ theorem stepThread_clean (s : Shared) (t : Thread) (h : Clean s) (hl : AllFull t
   · split
     · exact ⟨h, hl⟩
     · exact startOp_clean s t.log _ _ h hl
+  · exact ⟨h, hl⟩
   · rename_i thenDet _
     refine ⟨⟨by simp, ?_⟩, hl.snoc⟩
     cases thenDet
     · simpa using h.2
     · simp
+  · exact ⟨h, hl⟩
   · exact ⟨⟨h.1, by simp⟩, hl.snoc⟩
 
 def CInv (c : Config) : Prop := Clean c.sh ∧ ∀ t ∈ c.th, AllFull t.log
@@ -96,7 +101,7 @@ theorem CInv_step (c : Config) (i : Nat) (h : CInv c) : CInv (stepAt cleanCfg c 
     · exact h.2 t' h1
     · exact sp.2
 
-theorem CInv_init (k : Kind) (n : Nat) (progs : List (List COp)) : CInv (Config.init k n progs) := by
+theorem CInv_init (k : Kind) (n : Nat) (progs : List (List COp)) (slow : Nat := 0) : CInv (Config.init k n progs slow) := by
   refine ⟨⟨by simp [Config.init], by simp [Config.init]⟩, ?_⟩
   intro t ht
   simp only [Config.init, List.mem_map] at ht
@@ -107,5 +112,110 @@ theorem CInv_reachable {c0 c : Config} (h0 : CInv c0) (h : Reachable cleanCfg c0
   induction h with
   | init => exact h0
   | step i _ ih => exact CInv_step _ i ih
+
+/-! ### completion writes: without an in-place fold no reader is ever handed a type that is not a type of the value -/
+
+/-- no fill function completes its published object by an in-place fold -/
+def NoFold (cfg : Cfg) : Prop := ∀ k, cfg.redFold k = false ∧ cfg.detFold k = false
+
+def NoNarrow (log : List Obs) : Prop := Obs.narrow ∉ log
+
+theorem NoNarrow.snoc {log : List Obs} {o : Obs} (h : NoNarrow log) (ho : o ≠ .narrow) : NoNarrow (log ++ [o]) := by
+  intro hm
+  rcases List.mem_append.mp hm with hm | hm
+  · exact h hm
+  · simp only [List.mem_singleton] at hm
+    exact ho hm.symm
+
+theorem seeRedC_ne_narrow {cfg : Cfg} (hc : NoFold cfg) (k : Kind) (r : CS) : seeRedC cfg k r ≠ .narrow := by
+  cases r <;> simp [seeRedC, (hc k).1]
+
+theorem seeDetPart_ne_narrow {cfg : Cfg} (hc : NoFold cfg) (k : Kind) : seeDetPart cfg k ≠ .narrow := by
+  simp [seeDetPart, (hc k).2]
+
+theorem reduced_ne_narrow {cfg : Cfg} (hc : NoFold cfg) (s : Shared) (o : Obs) (h : (reduced cfg s).2 = some o) : o ≠ .narrow := by
+  unfold reduced at h
+  split at h
+  · split at h
+    · cases h; simp
+    · cases h
+  · cases h; exact seeRedC_ne_narrow hc _ _
+
+theorem startOp_nonarrow {cfg : Cfg} (hc : NoFold cfg) (s : Shared) (log : List Obs) (rest : List COp) (op : COp)
+    (hl : NoNarrow log) : NoNarrow (startOp cfg s log rest op).2.log := by
+  cases op with
+  | ptype =>
+    simp only [startOp]
+    split
+    · exact hl
+    · rename_i s' o heq
+      exact hl.snoc (reduced_ne_narrow hc s o (by rw [heq]))
+  | str =>
+    simp only [startOp]
+    split
+    · exact hl
+    · exact hl.snoc (by simp)
+  | pure => exact hl.snoc (by simp)
+  | dtype =>
+    simp only [startOp]
+    split
+    · exact hl.snoc (by simp)
+    · exact hl.snoc (seeDetPart_ne_narrow hc _)
+    · exact hl.snoc (seeRedC_ne_narrow hc _ _)
+    · split
+      · split
+        · exact hl
+        · rename_i s' o heq
+          exact hl.snoc (reduced_ne_narrow hc s o (by rw [heq]))
+      · exact hl
+
+theorem stepThread_nonarrow {cfg : Cfg} (hc : NoFold cfg) (s : Shared) (t : Thread) (hl : NoNarrow t.log) :
+    NoNarrow (stepThread cfg s t).2.log := by
+  unfold stepThread
+  split
+  · split
+    · exact hl
+    · exact startOp_nonarrow hc s t.log _ _ hl
+  · exact hl
+  · exact hl.snoc (by simp)
+  · exact hl
+  · exact hl.snoc (by simp)
+
+def NInv (c : Config) : Prop := ∀ t ∈ c.th, NoNarrow t.log
+
+theorem NInv_step {cfg : Cfg} (hc : NoFold cfg) (c : Config) (i : Nat) (h : NInv c) : NInv (stepAt cfg c i) := by
+  unfold stepAt
+  cases hi : c.th[i]? with
+  | none => exact h
+  | some t =>
+    intro t' ht'
+    rcases List.mem_or_eq_of_mem_set ht' with h1 | rfl
+    · exact h t' h1
+    · exact stepThread_nonarrow hc c.sh t (h t (List.mem_of_getElem? hi))
+
+theorem NInv_init (k : Kind) (n : Nat) (progs : List (List COp)) (slow : Nat) : NInv (Config.init k n progs slow) := by
+  intro t ht
+  simp only [Config.init, List.mem_map] at ht
+  obtain ⟨p, _, rfl⟩ := ht
+  intro ho; cases ho
+
+theorem NInv_reachable {cfg : Cfg} (hc : NoFold cfg) {c0 c : Config} (h0 : NInv c0) (h : Reachable cfg c0 c) : NInv c := by
+  induction h with
+  | init => exact h0
+  | step i _ ih => exact NInv_step hc _ i ih
+
+/-- a table of completion writes that satisfies the discipline configures the model without any in-place fold -/
+theorem NoFold_ofTables (sites : List CacheSite) (writes : List CacheWrite) (h : completionOK writes = true) :
+    NoFold (Cfg.ofTables sites writes) := by
+  have hf : ∀ fn, fnFoldsInPlace writes fn = false := by
+    intro fn
+    unfold fnFoldsInPlace
+    rw [List.any_eq_false]
+    intro w hw
+    have := List.all_eq_true.mp h w hw
+    simp only [bne_iff_ne, ne_eq] at this
+    simp [this]
+  intro k
+  cases k <;> simp [Cfg.ofTables, Cfg.redFold, Cfg.detFold, hf]
 
 end Pcore.LazyCache
